@@ -24,6 +24,7 @@
 #include <sys/resource.h>
 #include <sys/time.h>
 
+#include <atomic>
 #include <memory>
 #include <thread>
 #include <vector>
@@ -199,10 +200,23 @@ namespace Pistache::Aio
                 : tid()
             { }
 
-            std::thread::id thread() const { return tid; }
+            // The loop thread publishes its id when it starts running; another
+            // thread - the acceptor handing over its first connection, a handler
+            // answering from a thread of its own - may ask for it at that moment
+            Context(const Context& other)
+                : tid(other.tid.load())
+            { }
+
+            Context& operator=(const Context& other)
+            {
+                tid.store(other.tid.load());
+                return *this;
+            }
+
+            std::thread::id thread() const { return tid.load(); }
 
         private:
-            std::thread::id tid;
+            std::atomic<std::thread::id> tid;
         };
 
         virtual void onReady(const FdSet& fds)              = 0;
